@@ -51,3 +51,8 @@ PROPS["C14"] = {
     "trusted_base": ["cbmc/goto-cc 6.11.0 (MiniSat2)", "lib/ds_sink.c (DString specification as ghost code; refinement proved under C19)", "CBMC built-in strncmp/strcmp/tolower models, lib/libc_models.c byte loops"],
     "assumptions": [NOFAIL, _PS_STUB, _XA_STUB, "source bytes non-NUL", "block/child tokens contiguous inside their parent (C15)"],
 }
+
+U("c14_preamble_start", ["C14"], "h_preamble", ["C14/preamble.c"], ["opml.c"], plain=True, lib=(), kind="bounded",
+  defines=["-DI18N_DISABLED=1"], cbmc_flags=["--unwind", "6", "--unwinding-assertions", "--object-bits", "10"],
+  bounds={"leading blocks": "0..3 (types symbolic)", "unwind": 6}, functions=["mmd_check_preamble_opml"],
+  callees={"stack_push": "contract stub recording the pushed block", "d_string_append*": "no-op stubs"}, min_obligations=5, timeout=200, cost=3, assumptions=[NOFAIL])
